@@ -200,13 +200,13 @@ ADDENDA = {
     'C06': " Later additions: a required output next to a non-required consumer that keeps requesting (nothing beyond two in-flight publishes may be published while the required output is missing), a '?'-relay that numbers its own output restarted late behind a slow producer (must catch up at once).",
     'C07': " Later additions: a balanced rejoin that is a relay, a worker ending cleanly mid-stream (exits are part of OFP), blocking applications as splitter/workers/rejoin, stored schedules; the splitter publishing on the endpoint of a worker that has just left (outputs not recomputed after CLOSE) is modelled as the code does it and reached by a TLC reachability goal (X_NoStaleEndpoint) replayed with state comparison.",
     'C08': " Later additions: runs that were ending cleanly (exit(), deadline, stop, obeyed clean exit) and then hit an exception in shutdown() are judged as ending by that error (run() raises, 'error' is announced); the protocol-level stage (OFP with Terminate / exit messages / CLOSE) with C08_NoSpuriousExit and C08_WholePipeline.",
-    'C09': " Later additions: data strings with unpaired surrogates, read-only frames derived from a render buffer that is rewritten afterwards, colour-declared frames whose existing JPEG is single-channel (independent reference decode).",
+    'C09': " Later additions: data strings with unpaired surrogates, read-only frames derived from a render buffer that is rewritten afterwards, colour-declared frames whose existing JPEG is single-channel (independent reference decode), frames obtained by .rw from a decoded JPEG frame and drawn on before sending (Codec!decrw).",
     'C10': " Later additions: a stream of different jpg-backed frames whose blobs are freed while earlier pictures are kept (every image is the decoding of its own jpg).",
     'C11': " Later additions: every parsed / normalised value is written into by the caller and the same text parsed again (results are fresh objects), white space at the inner slashes of MQTT source paths, pass-through options with falsy values.",
     'C12': " Later additions: id sources written 'id?!opt' / 'id??!opt'.",
     'C13': " Later additions: carriage returns inside line-mode records, bin records that are bytearrays and two-dimensional buffers, 128-byte cells; a writer that does not flush every record (write(..., flush=False), flush(): RollLog!wbuf - followers see an empty newest file that gets its records later; design mutation skip_empty), and every step formula is evaluated on every call (a toggle in ev: a read() that finds nothing twice in a row is no longer a stuttering step).",
     'C14': " Later additions: crash points at os.open/os.write/os.close of the head files as well as on the file-object path, saved positions of different lengths (128-byte cells), a reader constructed with file_size=1; a reader without autorefresh whose application calls refresh(), with log files deleted under the running reader (also the file it is in the middle of): model check, path cover replay, fault enumeration and TLC trace validation (HeadFile_*_ex, HeadFileCover_ex, TraceHeadFile_ex).",
-    'C15': " Later additions: a 300-character token as password.",
+    'C15': " Later additions: a 300-character token as password; VideoOut with adaptive fps whose RTSP stream is torn down and served again when the frame rate changes mid-run (Redact!adapt_restart, simulated writer clock).",
     'C16': " Later additions: a sample of the vectors through OpenTelemetryClient's own wiring (fresh interpreters) over an alphabet whose names and patterns end in '_histogram', configuration files without a usable safe_metrics section, a permissive exporter exporting every name before the restrictive ones.",
     'C17': " Later additions: float-hazard (side, bound) pairs, chains run through Util.setup()/process() with every other transformation scoped to topic 'main'.",
     'C18': " Later additions: spec/life/Emitter.tla - the emitter object with main-thread calls, single heartbeat-loop iterations, the telemetry bridge's export / force_flush (also after the run has ended), a backend whose emit() raises and consecutive runs; TLC checks START-first / one terminal per run / nothing after it on every call sequence, four design mutations give counterexamples, -simulate behaviours are replayed call by call on the real OpenFilterLineage through the real OTelLineageExporter with the object state compared; an emitter-level lock-discipline probe with random interleavings; exit() before Filter.init() (no START, nothing to end) and stop_logging() raising at the end of a run (ABORT, not COMPLETE).",
